@@ -20,11 +20,11 @@ import (
 type eolSet uint8
 
 const (
-	stU0 eolSet = 1 << iota // unknown position, no comment captured
-	stU1                    // unknown position, comment captured (cannot normally arise: consumption clears the flag)
-	stL0                    // at end of line (or error recorded by assertEOL), comment not captured
-	stL1                    // at end of line, comment captured
-	stE                     // an error has been recorded on this path (sticky)
+	stU0  eolSet = 1 << iota // unknown position, no comment captured
+	stU1                     // unknown position, comment captured (cannot normally arise: consumption clears the flag)
+	stL0                     // at end of line (or error recorded by assertEOL), comment not captured
+	stL1                     // at end of line, comment captured
+	stE                      // an error has been recorded on this path (sticky)
 	stAll = stU0 | stU1 | stL0 | stL1 | stE
 )
 
@@ -98,7 +98,7 @@ type eolAnalysis struct {
 	exit     map[*ssa.Function]eolSet
 	falseErr map[*ssa.Function]bool
 	nilErr   map[*ssa.Function]bool
-	nilParam map[*ssa.Function]int // nilErr modulo this parameter: the result may also be nil when that argument is nil (-1: none)
+	nilParam map[*ssa.Function]int  // nilErr modulo this parameter: the result may also be nil when that argument is nil (-1: none)
 	typeNil  map[*ssa.Function]bool // result's T field is nil only after an error (parseTypedDecl)
 	// per function results of the last run
 	before   map[ssa.Instruction]eolSet
